@@ -55,6 +55,101 @@ def rule_g(F):
     return tb.rule_guard(table(F), "G")
 
 
+def _nd_literals(cond):
+    """cond as a list of conjunct/disjunct literals: returns (shape, [(neg, T)]) with shape in 'and','or','single','other'"""
+    def lit(e, neg=False):
+        e = hu.strip_all(e)
+        if e is None:
+            return None
+        if e.get("k") == "un" and e.get("op") == "Not":
+            return lit(e["e"], not neg)
+        if e.get("k") == "call" and any(n.endswith("mem::needs_drop") for n in hir_callee(e)):
+            a = (e["f"].get("path") or {}).get("args") or []
+            return (neg, a[0] if a else "?")
+        return None
+    c = hu.strip_all(cond)
+    l = lit(c)
+    if l is not None:
+        return "single", [l]
+    if c.get("k") == "bin" and c.get("op") in ("And", "Or"):
+        out = []
+        stack = [c]
+        while stack:
+            x = hu.strip_all(stack.pop())
+            if x.get("k") == "bin" and x.get("op") == c["op"]:
+                stack += [x["l"], x["r"]]
+            else:
+                y = lit(x)
+                if y is None:
+                    return "other", []
+                out.append(y)
+        return c["op"].lower(), out
+    return "other", []
+
+
+def rule_d(F):
+    """C12.D: a `needs_drop::<T>()` test may only decide whether the elements *of type T* are dropped. The accepted shapes are
+    `if needs_drop::<T>() { drop_in_place(<*mut T>) }` (nothing else in the branch, no else) and fast paths whose condition
+    says that *neither* the key nor the value type needs dropping. A test on one type that gates the other type's drops
+    (or the whole slot walk) forgets the other half: keys with a destructor stored with plain values are never dropped."""
+    res = []
+    fns = [f for f in F.fns if f.hir and not f.hir.get("exp") and "collections::hash_map" in f.path]
+    tys = set()
+    sites = []
+    for f in fns:
+        for y in hir_walk(f.hir["body"]):
+            if y.get("k") == "if":
+                shape, lits = _nd_literals(y["cond"])
+                mentions = any(z.get("k") == "call" and any(n.endswith("mem::needs_drop") for n in hir_callee(z)) for z in hir_walk(y["cond"]))
+                if mentions:
+                    sites.append((f, y, shape, lits))
+                    tys |= set(t for _, t in lits)
+    if len(sites) < 4 or len(tys) < 2:
+        raise AnchorMissing("needs_drop tests in hash_map.rs (found %d over types %s)" % (len(sites), sorted(tys)))
+    cnt = {}
+    for f, y, shape, lits in sites:
+        fname = (f.root or f.short).rsplit("::", 1)[-1]
+        base = "C12/D/%s/needs_drop<%s>" % (fname, ",".join(("!" if n else "") + t for n, t in sorted(lits, key=lambda x: x[1])) or "?")
+        k = cnt.get(base, 0)
+        cnt[base] = k + 1
+        key = base + ("" if k == 0 else "#%d" % k) + "/gates-only-its-own-drops"
+        loc = f.loc(y.get("ln"))
+        if shape == "single" and not lits[0][0]:
+            t = lits[0][1]
+            body = hu.strip_all(y["then"])
+            effects = [z for z in hir_walk(body) if z.get("k") in ("call", "mcall", "assign", "assign_op", "ret", "break", "continue")]
+            foreign = []
+            for z in effects:
+                names = hir_callee(z) if z.get("k") in ("call", "mcall") else []
+                if z.get("k") == "call" and any(n.endswith("ptr::drop_in_place") for n in names):
+                    pty = (z["args"][0].get("ty") or "") if z.get("args") else ""
+                    if not pty.replace(" ", "").endswith("mut" + t):
+                        foreign.append("drop_in_place(%s)" % pty)
+                    continue
+                if z.get("k") == "mcall" and z.get("name") in ("add", "as_ptr", "offset", "cast"):
+                    continue
+                foreign.append(z.get("name") or (names[0] if names else z.get("k")))
+            if y.get("else") is not None and [z for z in hir_walk(y["else"]) if z.get("k") in ("call", "mcall", "assign", "ret")]:
+                foreign.append("else-branch")
+            if foreign:
+                res.append(bad("C12.D", key, loc, "in %s the test needs_drop::<%s>() gates more than the drop of the %s elements (%s): when %s "
+                               "is plain data the other half of the entry is skipped too - every key and value must be dropped exactly once"
+                               % (fname, t, t, ", ".join(map(str, foreign[:3])), t)))
+            else:
+                res.append(ok("C12.D", key, loc, "gates only drop_in_place of the %s array" % t))
+        elif (shape in ("and", "single") and all(n for n, _ in lits)) or (shape == "or" and not any(n for n, _ in lits)):
+            covered = set(t for _, t in lits)
+            if covered >= tys:
+                res.append(ok("C12.D", key, loc, "fast path / full walk decided on all of %s" % sorted(tys)))
+            else:
+                res.append(bad("C12.D", key, loc, "in %s a branch is chosen on needs_drop of %s only, while the map also stores %s: on that "
+                               "branch the elements of the other type are not dropped (e.g. String keys with plain values leak on clear) - "
+                               "every key and value must be dropped exactly once" % (fname, sorted(covered), sorted(tys - covered))))
+        else:
+            res.append(note("C12.D", key, loc, "needs_drop test of another shape: not judged"))
+    return res
+
+
 def rule_z(F):
     res = []
     f = F.fn("collections::hash_map::hash")
@@ -255,6 +350,7 @@ def rule_k(F):
 
 
 RULES = [
+    Rule("C12.D", rule_d, 5, "a needs_drop test gates only the drops of its own element type"),
     Rule("C12.F", rule_f, 2, "when the growth test declines a free slot remains after the insertion"),
     Rule("C12.K", rule_k, 2, "every resize leaves a free slot"),
     Rule("C12.R", rule_r, 4, "slot/count pairing in CaoHashMap"),
